@@ -1,7 +1,7 @@
 #!/bin/bash
 # usage: seed_batch.sh <prop> [extra props to run]  -- verifies /tmp/seed2_<prop>/_seeds/s* and files them as <prop>-s*
 P=$1; shift; EXTRA="$@"
-for d in /tmp/seed2_$P/_seeds/s*; do
+for d in ${SEEDROOT:-/tmp/seed2}_$P/_seeds/s*; do
   k=$(basename $d)
   [ -f $d/patch.diff ] || continue
   /verif/tools/seed_verify.sh $d $P-$k $P $EXTRA 2>&1 | grep -v "^  bounded\|^  failed" | cut -c1-300
